@@ -149,6 +149,17 @@ def observe_file_api(case) -> dict:
                 events.append((self, label, value.logical_value))
                 return orig_add_label(self, label, value)
             _sym.Scope.add_label = add_label_spy
+            # which scopes are loop-iteration scopes: those the resolver makes through append_internal_scope (behaviour,
+            # not the class name); without that method the label listing is not cross-checked at all
+            internal_ids: set = set()
+            orig_internal = getattr(_sym.Resolver, "append_internal_scope", None)
+            if orig_internal is not None:
+                def internal_spy(self, *a, **k):
+                    r = orig_internal(self, *a, **k)
+                    if self.scopes:
+                        internal_ids.add(id(self.scopes[-1]))
+                    return r
+                _sym.Resolver.append_internal_scope = internal_spy
             try:
                 with contextlib.redirect_stdout(io.StringIO()), contextlib.redirect_stderr(io.StringIO()):
                     if case.get("format", "ips") == "ips":
@@ -167,10 +178,11 @@ def observe_file_api(case) -> dict:
                     scopes = program.resolver.scopes
                     per_scope: dict[int, dict[str, int]] = {}
                     for sc, name, value in events:
-                        if type(sc).__name__ == "InternalScope":
+                        if id(sc) in internal_ids:      # a loop iteration's scope (made by append_internal_scope)
                             continue
                         per_scope.setdefault(scopes.index(sc), {})[name] = value
-                    out["labeldefs"] = [[(v >> 16) & 0xFF, v & 0xFFFF, n] for i in sorted(per_scope) for n, v in per_scope[i].items()]
+                    if orig_internal is not None:
+                        out["labeldefs"] = [[(v >> 16) & 0xFF, v & 0xFFFF, n] for i in sorted(per_scope) for n, v in per_scope[i].items()]
             except Exception as e:
                 if type(e).__name__ == "Timeout":
                     raise
@@ -179,6 +191,8 @@ def observe_file_api(case) -> dict:
     finally:
         try:
             _sym.Scope.add_label = orig_add_label
+            if orig_internal is not None:
+                _sym.Resolver.append_internal_scope = orig_internal
         except NameError:
             pass
         for lg in loggers:
@@ -219,7 +233,7 @@ def observe_cli(case) -> dict:
         cmd.append(case.get("fname", FNAME))
         env = dict(os.environ, PYTHONPATH=str(C.REPO), PYTHONDONTWRITEBYTECODE="1")
         try:
-            p = subprocess.run(cmd, cwd=d, env=env, capture_output=True, text=True, timeout=CASE_TIMEOUT)
+            p = subprocess.run(cmd, cwd=d, env=env, capture_output=True, text=True, timeout=CASE_TIMEOUT - 10)
         except subprocess.TimeoutExpired:
             return {"timeout": True}
         data = Path(d, "out.bin").read_bytes() if Path(d, "out.bin").exists() else None
@@ -270,7 +284,9 @@ def front_term(o) -> str:
     if o is None:
         return "FNone"
     if o.get("timeout"):
-        return "(FRaise EOther)"
+        # a front end that did not come back: an observation no model result agrees with and every oracle objects to
+        # (status 99 together with a success message; see not_hung in Oracle/E2Eo.v)
+        return "(FExit 99 true None)"
     # very large flat images (a block high up in a 4 MiB ROM) are not shipped: only the status is compared then
     f = "None" if o.get("file") is None or len(o["file"]) > MAX_FILE else f"(Some {C.cbytes(bytes(o['file']))})"
     if "ret" in o:
